@@ -69,6 +69,8 @@ pub enum Op {
     Import { topic: String, ctx: CtxRef, ttl: TtlSpec, meta: usize, hash: usize, ts_off: i64, salt: u64 },
     ImportReg { ts_off: i64, salt: u64, adjacent_to: Option<usize> },
     ReImport { id: IdRef },
+    /// import an id that is (or was) in the store again, under another topic and / or context
+    ReImportAs { id: IdRef, topic: String, ctx: CtxRef },
     Remove { id: IdRef },
     Tick { ms: u64 },
     /// move the clock to the expiry edge of the k-th time:N frame, plus delta ms (never backwards)
@@ -402,7 +404,13 @@ pub fn generate(seed: u64, cfg: &GenCfg) -> Plan {
                 salt: rng.next_u64(),
                 adjacent_to: if rng.chance(40) { Some(rng.below(3)) } else { None },
             },
-            4 => Op::ReImport { id: IdRef::Nth(rng.below(64)) },
+            4 => {
+                if (cfg.prop == "C05" || cfg.prop == "C01" || cfg.prop == "C06") && rng.chance(25) {
+                    Op::ReImportAs { id: IdRef::Nth(rng.below(64)), topic: topic(&mut rng), ctx: gen_ctx(&mut rng, 0) }
+                } else {
+                    Op::ReImport { id: IdRef::Nth(rng.below(64)) }
+                }
+            }
             5 => Op::Remove { id: gen_idref(&mut rng) },
             6 => Op::Tick { ms: *rng.pick(&[1u64, 1, 2, 10, 49, 999, 5000, 70_000]) },
             7 => Op::TickToEdge { k: rng.below(8), delta: *rng.pick(&[-1i64, 0, 1]) },
@@ -917,6 +925,21 @@ impl Exec {
                     let f = mf.frame.clone();
                     self.w.probe(if mf.removed { "import:resurrect-removed" } else { "import:duplicate" });
                     self.do_import(&what, f)?;
+                }
+            }
+            Op::ReImportAs { id, topic, ctx } => {
+                let id = self.idref(id);
+                let c = self.ctx(ctx);
+                if let Some(mf) = self.model.frames.get(&id) {
+                    let old = mf.frame.clone();
+                    // (registrations keep their place; a NUL topic is another check's business)
+                    if old.topic != "xs.context" && topic != "xs.context" && !topic.as_bytes().contains(&0) && self.model.usable(&c) != Tri::Absent {
+                        let f = Frame { topic: topic.clone(), context_id: c, ..old.clone() };
+                        if f.topic != old.topic || f.context_id != old.context_id {
+                            self.w.probe("import:same-id-elsewhere");
+                        }
+                        self.do_import(&what, f)?;
+                    }
                 }
             }
             Op::Remove { id } => {
